@@ -5,13 +5,20 @@ package main
 
 import (
 	"bufio"
+	"bytes"
 	"encoding/json"
 	"fmt"
+	"io"
 	"math/rand"
 	"os"
+	"os/exec"
+	"path/filepath"
+	"runtime/debug"
 	"sort"
 	"strconv"
+	"strings"
 	"sync"
+	"time"
 )
 
 type Ctx struct {
@@ -22,6 +29,7 @@ type Ctx struct {
 	out     *bufio.Writer
 	mu      sync.Mutex
 	nextID  int
+	children int
 	Stats   map[string]int
 	Replay  string
 	Thorough bool
@@ -118,12 +126,90 @@ func genReplay(c *Ctx) {
 		fmt.Fprintf(os.Stderr, "replay: unknown case kind %q\n", rf.Case.K)
 		os.Exit(2)
 	}
+	if childKinds[rf.Case.K] {
+		c.DoChild(rf.Case.K, rf.Case.In, 60*time.Second)
+		return
+	}
 	c.Do(rf.Case.K, rf.Case.In)
 }
 
+// kinds that must run in a child process
+var childKinds = map[string]bool{}
+
 func init() { register("replay", genReplay) }
 
+// DoChild runs one case in a child process (a fatal error, stack overflow or hang of the hub is
+// then an observation {"crash": …} instead of the end of the harness).
+func (c *Ctx) DoChild(kind string, in M, timeout time.Duration) {
+	b, _ := json.Marshal(in)
+	dir := filepath.Join(c.Dir, fmt.Sprintf("child%d", c.childN()))
+	_ = os.MkdirAll(dir, 0o755)
+	cmd := exec.Command(os.Args[0], "child", kind, string(b), dir)
+	cmd.Env = append(os.Environ(), "GOMEMLIMIT=2GiB")
+	var stdout, stderr bytes.Buffer
+	cmd.Stdout = &stdout
+	cmd.Stderr = &stderr
+	done := make(chan error, 1)
+	if err := cmd.Start(); err != nil {
+		panic(err)
+	}
+	go func() { done <- cmd.Wait() }()
+	var out interface{}
+	select {
+	case err := <-done:
+		if err != nil {
+			tail := stderr.String()
+			if len(tail) > 400 {
+				tail = tail[:400]
+			}
+			first := strings.SplitN(tail, "\n", 2)[0]
+			out = M{"crash": first}
+		} else {
+			line := stdout.String()
+			if i := strings.LastIndex(line, "CHILDOUT "); i >= 0 {
+				var v interface{}
+				if json.Unmarshal([]byte(strings.TrimSpace(line[i+9:])), &v) == nil {
+					out = v
+				}
+			}
+			if out == nil {
+				out = M{"crash": "no output"}
+			}
+		}
+	case <-time.After(timeout):
+		_ = cmd.Process.Kill()
+		<-done
+		out = M{"crash": "hang"}
+	}
+	_ = os.RemoveAll(dir)
+	c.Emit(kind, json.RawMessage(b), out)
+}
+
+func (c *Ctx) childN() int {
+	c.mu.Lock()
+	defer c.mu.Unlock()
+	c.children++
+	return c.children
+}
+
+func childMain() {
+	kind, dir := os.Args[2], os.Args[4]
+	var in M
+	if err := json.Unmarshal([]byte(os.Args[3]), &in); err != nil {
+		panic(err)
+	}
+	debug.SetMaxStack(64 << 20) // a runaway recursion dies quickly
+	ctx := &Ctx{Tier: "child", Rng: rand.New(rand.NewSource(1)), Dir: dir, out: bufio.NewWriter(io.Discard), Stats: map[string]int{}}
+	out := kinds[kind](ctx, in)
+	b, _ := json.Marshal(out)
+	fmt.Printf("\nCHILDOUT %s\n", b)
+}
+
 func main() {
+	if len(os.Args) >= 5 && os.Args[1] == "child" {
+		childMain()
+		return
+	}
 	if len(os.Args) < 6 {
 		names := []string{}
 		for k := range registry {
